@@ -136,6 +136,10 @@ func runC02() {
 			nHist = 1
 		}
 		if !run.Thorough() || n%3 == 0 {
+			timed("gc-merge", func() { gcMergeScenario(r.Fork()) })
+			rec.Count("c02:family:gc-merge")
+		}
+		if !run.Thorough() || n%3 == 0 {
 			timed("slow-owner", func() { slowOwnerScenario(r.Fork()) })
 			rec.Count("c02:family:slow-owner")
 		}
